@@ -295,6 +295,11 @@ pub fn replay_layer(case: &Value, rep: &mut Report) {
                 let dpre = diff_exact(&pre, &case["pre"]);
                 let dpost = diff_exact(&post, &case["post"]);
                 if dpre.is_some() || dpost.is_some() {
+                    // C08, flat <-> spatial transitions: the same input handed over as a flat row-major vector must give
+                    // what the spatial representation gives (which was right, or forward_ok would be false already)
+                    if repr == "flat" && forward_ok {
+                        rep.mismatch("C08", &format!("flat_representation_changes_the_output:{}", kind), &id, json!({"pre": dpre, "post": dpost}), case);
+                    }
                     forward_ok = false;
                     rep.mismatch(
                         "C02",
